@@ -17,7 +17,16 @@ def maxKidsL : Kids → Nat
   | (_, c) :: r => max (maxKidsT c) (maxKidsL r)
 end
 
+mutual
+def anyPPosT : T → Bool
+  | .node _ p k => p != 0 || anyPPosL k
+def anyPPosL : Kids → Bool
+  | [] => false
+  | (_, c) :: r => anyPPosT c || anyPPosL r
+end
+
 def treeTags (t : T) : List String :=
+  tagIf (anyPPosL t.kids) "ppos-nonzero" ++
   tagIf t.rooted "rooted" ++ tagIf (!t.rooted) "unrooted" ++
   tagIf (t.kids.length == 1) "roottip" ++
   tagIf (t.uniqueTips) "uniq" ++ tagIf (uniqueIds t) "uniq-ids" ++
